@@ -95,7 +95,7 @@ RULE_TL = ("TLC enumerates every keyframe list within the bounds of the cfg (pos
            "optional easing) in every insertion order, plus pseudo-random lists of up to 6 keyframes over 4 properties, of up to 12 keyframes "
            "over 2, and lists whose positions are distinct but closer together than f32::EPSILON (0.5 and the next float); each builder "
            "state is one behaviour, printed with the spec's predicted value terms at EVERY tick from 0 to past the end for timings "
-           "drawn from a pool of 16 (delay/repeat/reverse/non-dyadic cycles) and replayed through the real builder + derive(Animate) "
+           "drawn from a pool of 22 (delay/repeat/reverse/non-dyadic cycles, counts beyond 2^24, cycles whose reciprocal product is below 1) and replayed through the real builder + derive(Animate) "
            "timeline at several tick scales, once more with all float values scaled towards f32::MAX, one line in 24 with one keyframe repeated "
            "66 000 times (neutral by the model's DupNeutral law), and with an i32 beyond 2^24 at a lone 100% keyframe where the prediction is "
            "exactly that keyframe; distinct = distinct builder states x scales; non-trivial = at least one keyframe")
@@ -155,7 +155,7 @@ def c11(ctx):
     mc_keyframes(ctx, "OrderFree: evaluation goes through the stably sorted list only")
     run_tlc(ctx, "MC_Keyframes", "MC_Keyframes_asfound_C11.cfg", workers=4, expect_violation="OrderFree")
     rep = timeline_legA(ctx)
-    judge_replay(ctx, rep, lambda m: m.get("ascending") is False, "keyframes added in non-ascending order")
+    judge_replay(ctx, rep, lambda m: m.get("ascending") is False or m.get("class") == "order-dependent", "keyframes added in non-ascending order / the same keyframes in another insertion order")
     return "model_checking", RULE_TL
 
 
